@@ -101,6 +101,7 @@ def gen_run(rng, stop=None, **over):
     return op
 
 
+@C.tolerant
 def sweep_ops(rng, exe, n_problems, **over):
     """Exhaustive stop injection: for fixed runs, `stop()` at every event index (1 … T)."""
     ops = []
